@@ -273,6 +273,7 @@ func parse(ctx context.Context, tree *parser.Thrift, mode meta.ParseServiceMode,
 		}
 	}
 
+	added := map[*parser.Function]bool{}
 	for _, svc := range svcs {
 		sopts := opts
 		// pass origin annotations
@@ -294,6 +295,11 @@ func parse(ctx context.Context, tree *parser.Thrift, mode meta.ParseServiceMode,
 			funcs = findFuncs(funcs, methods)
 		}
 		for _, p := range funcs {
+			if added[p.fn] {
+				// combined services: a function inherited from a service that is combined as well
+				continue
+			}
+			added[p.fn] = true
 			injectAnnotations((*[]*parser.Annotation)(&p.fn.Annotations), next)
 			if err := addFunction(ctx, p.fn, p.tree, sDsc, structsCache, sopts); err != nil {
 				return nil, err
